@@ -101,22 +101,34 @@ func ExecRun(t *testing.T, spec RunSpec, known *KnownFindings) *RunResult {
 	res := &RunResult{Spec: spec}
 	res.Spec.Scenario = sc
 	uuid.SetRand(seededReader{rand.New(rand.NewPCG(spec.Seed, 0x75756964))})
+	if sc.Cfg.Policy == "corelease" {
+		uuid.SetRand(nil) // a shared seeded reader would itself be a data race; ids need not replay in this mode
+	}
 	// compliance.AddIPv4EntryRandom shuffles with the global math/rand source (needs GODEBUG=randseednop=0)
 	oldrand.Seed(int64(spec.Seed))
 	var e *env
 	var out *simrt.Outcome
 	var sim *simrt.Sim
-	func() {
+	// The bubble runs on a goroutine of its own: when the race detector has
+	// reported something, testing fails the bubble's T and synctest.Test ends the
+	// calling goroutine with FailNow - which must not be the worker's.
+	var harnessPanic any
+	bubbleDone := make(chan struct{})
+	go func() {
+		defer close(bubbleDone)
 		defer func() {
 			if r := recover(); r != nil {
 				if out == nil {
-					panic(r) // not the end-of-bubble deadlock report: a harness bug
+					harnessPanic = r // not the end-of-bubble deadlock report: a harness bug
 				}
 			}
 		}()
 		synctest.Test(t, func(t *testing.T) {
 			pol, depth := policyOf(&sc.Cfg)
 			cfg := simrt.Config{Policy: pol, PCTDepth: depth, KeepEvents: 60, MaxSteps: 400000}
+			if depth < 0 {
+				cfg.PCTDepth, cfg.CoRelease = 0, true
+			}
 			sim, out = simrt.Run(cfg, tapes, func() {
 				e = &env{sim: simrt.Active(), sc: sc, known: known, allOps: map[uint64]*opRec{}, modelStates: map[uint64]bool{}, noKnownSoft: spec.NoKnownSoft}
 				defer func() {
@@ -130,6 +142,10 @@ func ExecRun(t *testing.T, spec RunSpec, known *KnownFindings) *RunResult {
 			})
 		})
 	}()
+	<-bubbleDone
+	if harnessPanic != nil {
+		panic(harnessPanic)
+	}
 	res.Outcome, res.Detail = out.Kind, out.Detail
 	res.Steps, res.Switches, res.Stmts = out.Steps, out.Switches, out.Stmts
 	res.SimTimeMS = int64(out.SimTime / time.Millisecond)
@@ -277,19 +293,25 @@ func (e *env) setup() {
 func runG1(e *env) {
 	e.setup()
 	cfg := &e.sc.Cfg
-	elec := [2]uint64{0, 1}
+	elec := [2]uint64{cfg.ElecHigh, 1}
 	var bystander *session
 	if cfg.Bystander {
 		// negotiated, announced a low id once, then idle: must never be disturbed
-		bystander = e.openSession([2]uint64{0, 1}, cfg.FIBAck)
+		bystander = e.openSession([2]uint64{cfg.ElecHigh, 1}, cfg.FIBAck)
 	}
-	cur := e.openSession(elec, cfg.FIBAck)
+	var cur *session
+	if !cfg.LateSession {
+		cur = e.openSession(elec, cfg.FIBAck)
+	}
 	modifies := 0
 	for i := range e.sc.Steps {
 		st := &e.sc.Steps[i]
 		e.step = i
 		switch st.T {
 		case "modify":
+			if cur == nil {
+				cur = e.openSession(elec, cfg.FIBAck)
+			}
 			if cur.dead {
 				elec[1]++
 				cur = e.openSession(elec, cfg.FIBAck)
@@ -306,6 +328,10 @@ func runG1(e *env) {
 		case "badget":
 			e.badGet(st.Get)
 		case "handover":
+			if cur == nil {
+				cur = e.openSession(elec, cfg.FIBAck)
+				continue
+			}
 			if st.A == 1 && !cur.dead {
 				cur.mc.CloseSend()
 				cur.closed = true
